@@ -10,6 +10,21 @@ CHECKS = {
          "Trusts the reference models (DESIGN Appendix B) and the documented relaxations: ET after expiry may be 0 or PT; exact comparison suspended after PT changes while timing. Clock is written directly (stub).",
          "DESIGN.md section 3 C04"),
  # id: (category, technique, level text, level_note, design_ref)
+ "C07": ("exploration",
+         "deterministic simulation: seeded address maps x churning/fault-injecting logging drivers x debugger I/O writes and forces x faulted cycles, lock-step byte-level image model and call-phase oracle",
+         "Seeded search over address maps (all 15 elementary types, X/B/W/D/L, overlapping/adjacent spans) and cycle histories with drivers that change their bytes on every read call; per cycle the merged driver/runtime event log must be reads-once -> program code -> writes-once, every program copy of every input must equal the independent decode of the bytes latched in that cycle, the published image must equal previous image + independent encodes (nothing outside addressed spans changes) and a faulted cycle must not deliver program-computed outputs. Sampling, not proof.",
+         "Trusts the little-endian/bit model (DESIGN Appendix B) and the documented assumptions (non-overlapping output spans, %M variables latched and published, order among drivers free). Drivers and clock are stubs.",
+         "DESIGN.md section 3 C07"),
+ "C08": ("fault_enumeration",
+         "deterministic simulation with fault enumeration: every budget point (statement entry / loop iteration at any call depth) of the fault cycle, every driver call, value fault per site, scripted fault, watchdog trip, retain-save failure x fault policy x watchdog action x safe-state map x failing-driver set; latch/refusal/safe-image oracles",
+         "For a multi-task plant with nested function->FB->function calls and loops: every budget point of the fault cycle is enumerated (H2) in the k=all cases and sampled otherwise, crossed with all fault kinds, policies, watchdog actions, seeded safe-state maps and driver failure sets. After each fault: latched, every later cycle refused with zero statements / zero driver calls / no variable or image change until restart, and under safe_halt (or watchdog halt|safe_halt) every configured address holds its value in the image and in every healthy driver's last delivery, delivered before the Fault event. Enumeration is complete per case over the statement boundaries of the chosen cycle; the cross product is sampled.",
+         "Trusts the H2 budget hook placement (check_execution_budget is reached at every statement entry and loop iteration), the plant corpus being representative for nesting, and the safe-image bit model. Runner loop (watchdog timer, restart-on-fault) is a stub.",
+         "DESIGN.md section 3 C08"),
+ "C09": ("exploration",
+         "deterministic simulation: seeded retain-qualified programs x histories of cycles / restarts / saves / power cycles / value faults, differential twin (fresh runtime + model's retained set) driven in lock-step",
+         "Seeded search over programs (13 retainable shapes x 4 qualifiers x global/program level, SINGLE variable with seeded init and qualifier, event + cyclic + background programs, task-bound FB instance, %I/%Q bindings, VAR_ACCESS paths) and histories; after every warm/cold restart and power cycle a newly built runtime plus the model's retained set is driven with the same operations and compared after every one: all variables, output image, time, cycle counter, fault latch, executed tasks, access-path reads. Sampling, not proof.",
+         "Trusts the retained-set model (DESIGN Appendix B) and that the twin (same compiler, fresh build) is a valid reference for 'newly built runtime'. Process boundary of the power cycle, store and clock are stubs.",
+         "DESIGN.md section 3 C09"),
  "C06": ("exploration",
          "deterministic simulation: seeded task sets x clock timelines (stalls, jumps) x SINGLE edges x restarts, lock-step reference scheduler",
          "Seeded search over configurations and timelines against an executable reference scheduler written from the property and docs/specs 4.3; every cycle's executed task/program sequence and overrun counters are compared. Sampling, not proof; the space (intervals x priorities x SINGLE sharing x clock traces) is far beyond the example tests and is covered by tens of thousands of distinct due-set/tie shapes per run.",
